@@ -38,6 +38,7 @@ import core
 import implrun
 from qlift import qstr, qparse
 from props import adv_common as ac
+from props import adv_grid
 from props.adv_common import PI, U, fr, frl, qs, oarr
 
 OFFS = [-2, -1, 0, 1, 2, 3]
@@ -593,6 +594,8 @@ def run():
     chk = core.Check('C10', 'proof')
     proof = core.proof_stage('C10')
     warnings.simplefilter('ignore')
+    # grid-level entry points on distributed layouts (local-index glue, state between entry points)
+    adv_grid.stage(chk, ['flux'])
     cases = gen_exact_cases(chk)
     res = implrun.run_cases('props.c10', 'exact_case', cases, tmo=600.0)
     lines, owner = [], []
@@ -711,6 +714,10 @@ def replay(path):
     os.environ['VERIF_SEED'] = str(body.get('seed'))
     os.environ['VERIF_TIER'] = str(body.get('tier'))
     rc = body.get('replay', {}).get('case', {}) if isinstance(body.get('replay'), dict) else {}
+    if isinstance(body.get('replay'), dict) and body['replay'].get('kind') == 'grid-entry':
+        ok, what = adv_grid.replay_case(body['replay']['case'])
+        print('grid-level entry points vs single-process run:', what)
+        return 0 if ok else 1
     if isinstance(rc, dict) and 'k' in rc and 'op' in rc:
         chk = core.Check('C10', 'proof')
         chk.seed, chk.tier = int(body['seed']), body['tier']
